@@ -346,6 +346,24 @@ func c08GenStream(r *rand.Rand, kind int) (*c08Stream, error) {
 		add(p)
 		add(c08Progress(r, false))
 		add(eos)
+	case 14: // many short strings: more than 1 MiB of String data in one column (the column buffer grows in bounded steps)
+		s.desc = "manystrings"
+		rows := 12000 + r.Intn(500)
+		c := new(proto.ColStr)
+		for i := 0; i < rows; i++ {
+			c.Append(fmt.Sprintf("%06d:", i) + c08Str(r, 90+r.Intn(8)))
+		}
+		var u proto.ColUInt32
+		for i := 0; i < rows; i++ {
+			u.Append(uint32(i))
+		}
+		p, err := c08DataPacket(r, proto.ServerCodeData, ch.CompressionDisabled, []proto.InputColumn{{Name: "s", Data: c}, {Name: "n", Data: &u}}, rows, 1)
+		if err != nil {
+			return nil, err
+		}
+		add(p)
+		add(c08Progress(r, false))
+		add(eos)
 	case 10: // an exception whose message is longer than maxStrPrealloc (StrRaw reads it in rounds)
 		s.desc = "long-exception"
 		add(c08Progress(r, true))
@@ -446,6 +464,7 @@ type c08Out struct {
 	reads    int
 	rem      int // bytes of the script the client never read (after Do and the follow-up Ping)
 	onWrites int // read timeouts whose deadline also covered writes
+	armed    bool // a read deadline was still armed on the connection when Connect returned
 }
 
 func (o c08Out) String() string {
@@ -499,6 +518,9 @@ func c08RunDo(st *c08Stream, evs []c08Ev, pattern []int, realtime bool) (out c08
 		out.err = "connect:" + c08ErrString(err)
 		return out
 	}
+	conn.mu.Lock()
+	out.armed = !conn.deadline.IsZero()
+	conn.mu.Unlock()
 	var res proto.Results
 	q := ch.Query{
 		Body:    "SELECT 1",
@@ -707,6 +729,9 @@ func c08DoStream(h *H, st *c08Stream, budget int, gapBudget *int) {
 	run := func(sg c08Seg, realtime bool) {
 		got := c08RunDo(st, c08Events(st, sg), sg.pattern, realtime)
 		oracle := c08Compare(ref, got)
+		if oracle == "ok" && got.armed {
+			oracle = "FAIL:the handshake left a read deadline armed on the connection: whatever arrives after it has passed - the rest of a packet, or the next packet of a query without a read timeout - fails or spins on a stale timeout"
+		}
 		if oracle == "ok" && got.onWrites > 0 {
 			oracle = fmt.Sprintf("FAIL:%d read timeouts between packets expired a deadline that was armed for writes too (SetDeadline): a write in progress while the client waits for a packet fails with the read timeout", got.onWrites)
 		}
@@ -1518,14 +1543,14 @@ func runC08(h *H) {
 	if h.Tier == "thorough" {
 		gapBudget = 600
 	}
-	kinds := []int{0, 1, 2, 3, 4, 5, 6, 7, 8, 11, 12, 13, 9, 10, 12, 11, 5, 6, 4, 12, 13, 7, 8, 11}
+	kinds := []int{0, 1, 2, 3, 4, 5, 6, 7, 8, 11, 12, 13, 9, 10, 14, 12, 11, 5, 6, 4, 12, 13, 7, 8, 11}
 	round := 0
 	for left > 0 {
 		for _, k := range kinds {
 			if left <= 0 {
 				break
 			}
-			if (k == 9 || k == 10) && round > 0 && h.Tier != "thorough" {
+			if (k == 9 || k == 10 || k == 14) && round > 0 && h.Tier != "thorough" {
 				continue
 			}
 			if k <= 3 && round > 0 && round%4 != 0 {
@@ -1539,6 +1564,9 @@ func runC08(h *H) {
 			budget := 240
 			if k == 9 || k == 10 {
 				budget = 80
+			}
+			if k == 14 {
+				budget = 60
 			}
 			before := h.Count
 			c08DoStream(h, st, budget, &gapBudget)
